@@ -62,6 +62,7 @@ type wscript struct {
 	emsg       string
 	ekind      int  // how the handler builds the error it returns: 0 status error, 1 status error wrapped with %w, 2 plain Go error
 	mutate     bool // the sender scribbles over a message right after sending it
+	nilOnDone  bool // cancel / deadline: the handler returns nil once its context has ended
 	thirdParty bool // unary + cancel, over the wrapper: a third party cancels at any moment (the reference keeps the ordered cancel)
 	mdReuse    bool // the handler keeps changing the metadata map it handed to SetHeader / SendHeader / SetTrailer
 	lateCancel bool // return terminals on streams: the client cancels its context only after the call has completely ended on the server side and everything has come to rest, then reads the outcome
@@ -88,7 +89,7 @@ func (s wscript) String() string {
 		}
 	}
 	term := []string{"return-ok", fmt.Sprintf("return(%s,%q,%s)", s.code, s.emsg, []string{"status", "wrapped-status", "plain-error"}[s.ekind]), "client-cancel", "deadline"}[s.term]
-	return fmt.Sprintf("%s [%s] %s mutate=%v late-handler=%v md-reuse=%v pre-done=%v late-cancel=%v third-party=%v", []string{"unary", "sstream", "cstream", "bidi"}[s.shape], strings.Join(p, " "), term, s.mutate, s.late, s.mdReuse, s.preDone, s.lateCancel, s.thirdParty)
+	return fmt.Sprintf("%s [%s] %s mutate=%v late-handler=%v md-reuse=%v pre-done=%v late-cancel=%v third-party=%v nil-on-done=%v", []string{"unary", "sstream", "cstream", "bidi"}[s.shape], strings.Join(p, " "), term, s.mutate, s.late, s.mdReuse, s.preDone, s.lateCancel, s.thirdParty, s.nilOnDone)
 }
 
 func genWrapScript(t *Tape) wscript {
@@ -144,6 +145,7 @@ func genWrapScript(t *Tape) wscript {
 		return s
 	}
 	if s.term == tCancel || s.term == tDeadline {
+		s.nilOnDone = t.Flag(1, 3) && s.term == tCancel // (at a deadline real gRPC itself answers EOF now and then: the server side gets there too)
 		if s.shape == 0 {
 			// unary: the server itself triggers the client's cancel once it is waiting; nothing to add.
 			// (over the wrapper, sometimes: somebody else cancels the call at a moment of the scheduler's choosing - while
@@ -298,6 +300,9 @@ func (sv *scriptServer) run(st srvStream, ctx context.Context, recv func() (stri
 			<-sv.release // a handler busy with something that does not watch the context
 		}
 		<-ctx.Done()
+		if sv.s.nilOnDone {
+			return nil // a handler that simply stops when its call is over (the caller still sees why the call ended)
+		}
 		return status.FromContextError(ctx.Err()).Err()
 	}
 	return nil
